@@ -300,7 +300,12 @@ class Verifier:
                 if attr in fam.attrs:
                     t = fam.attrs[attr]
                     f = self.uf('%s.%s' % (fam.name, attr), [Ref], sort_of(t))
-                    return SV(t, f(obj.z))
+                    r = SV(t, f(obj.z))
+                    if isinstance(t, (SeqT, SetT, DictT)) and not self.spec_mode:
+                        # a container the contract declares IMMUTABLE (attribute, not field): it is owned by the object;
+                        # mutating it in place through a local alias is a frame violation (copies are fine)
+                        r.shared = '%s.%s' % (fam.name, attr)
+                    return r
                 if attr in fam.fields:
                     t = fam.fields[attr]
                     return SV(t, z3.Select(self.heap_get(st, fam.name, attr), obj.z))
